@@ -97,3 +97,12 @@ Theorem C07_reset_keeps_forced : forall H wd run h c n id h' out j,
    else state_of (h_world h) j).
 Proof. exact reset_keeps_forced. Qed.
 Print Assumptions C07_reset_keeps_forced.
+
+(* exactly once: the forced recomputation consumes the mark - after a successful request that was not served from
+   memory the object is unmarked, so when its value is later dropped from memory (reset_data) or asked for by the
+   object again, the stored result is loaded (C07_unforced_served_from_storage) instead of running once more *)
+Theorem C07_forced_mark_consumed : forall classes run f w id w' v,
+  id < List.length (w_states w) -> os_mem (state_of w id) = None ->
+  eval classes run f w id = (w', inl v) -> os_forced (state_of w' id) = false.
+Proof. exact eval_success_unmarks. Qed.
+Print Assumptions C07_forced_mark_consumed.
